@@ -439,6 +439,9 @@ def plan(ctx):
         runs.append(("rand-pebble", "-seed %d -n 250 -len 40 -types khszl -policy mix -counters" % (seed + 7919), "pebble"))
         runs.append(("exh2", "-exh 2 -types khszl -policy local -xcounters", "mem"))
         runs.append(("exh3-ttl", "-exh 3 -types HSZLK -policy compact -xcounters", "mem"))
+        # one pass of the local_deletion expiry sweep, then at once a write to the swept key
+        runs.append(("sweep", "-sweep -types hszlk", "mem"))
+        runs.append(("sweep-pebble", "-sweep -types hszlk -seed 7", "pebble"))
         # third leg: the same kind of sequences over the redis protocol of a real single-replica server (proposer-side handlers)
         runs.append(("live", "-live -seed %d -n 400 -len 30 -types khszl" % (seed + 15485863), "mem"))
     else:
@@ -450,6 +453,9 @@ def plan(ctx):
         runs.append(("exh3-compact", "-exh 3 -types hsz -policy compact -xcounters", "mem"))
         runs.append(("exh4-ttl-compact", "-exh 4 -types HSZLK -policy compact -xcounters", "mem"))
         runs.append(("exh3-ttl-local", "-exh 3 -types HSZLK -policy local -xcounters", "mem"))
+        runs.append(("sweep", "-sweep -types hszlk", "mem"))
+        runs.append(("sweep-pebble", "-sweep -types hszlk -seed 7", "pebble"))
+        runs.append(("sweep-rocksdb", "-sweep -types hszlk -seed 9", "rocksdb"))
         runs.append(("live", "-live -seed %d -n 3000 -len 40 -types khszl" % (seed + 15485863), "mem"))
         runs.append(("live-pebble", "-live -seed %d -n 300 -len 40 -types khszl" % (seed + 32452843), "pebble"))
     return runs
